@@ -50,6 +50,7 @@ type Op struct {
 	IAPDs  [][]string `json:"iapds"` // per IA_PD: list of symbolic hints
 	NoCID  bool       `json:"no_client_id,omitempty"`
 	Age    bool       `json:"age,omitempty"`   // not a message: all leases run out (time passes)
+	Long   bool       `json:"long,omitempty"`  // age: two days instead of an hour
 	Timers string     `json:"t1_t2,omitempty"` // "" = 0/0; "t1>t2" = 3600/1800; "max" = ffffffff/ffffffff
 }
 
@@ -84,6 +85,7 @@ type Sys struct {
 	dead     bool
 	broken   bool
 	aged     map[string]bool // ghost: clients whose leases ran out since they were last answered
+	agedLong map[string]bool // ghost: ... more than two days ago
 	nclients int
 	rich     bool
 }
@@ -118,7 +120,7 @@ func iaidIndex(id uint32) int {
 }
 
 func NewSys(r *ev.Run, id string, p Pool, nclients int, rich bool) *Sys {
-	s := &Sys{r: r, id: id, pool: p, ghost: map[string][]told{}, aged: map[string]bool{}, nclients: nclients, rich: rich}
+	s := &Sys{r: r, id: id, pool: p, ghost: map[string][]told{}, aged: map[string]bool{}, agedLong: map[string]bool{}, nclients: nclients, rich: rich}
 	_, ipn, err := net.ParseCIDR(p.CIDR)
 	if err != nil {
 		panic(err)
@@ -207,6 +209,20 @@ func (s *Sys) resolve(client, sym string) (string, bool) {
 			return s.ghost[client][1].prefix, true
 		}
 		return "", false
+	case "own1-short", "own1-long", "own2-short":
+		// the address of a prefix the client holds, written with another length
+		k := 0
+		if sym == "own2-short" {
+			k = 1
+		}
+		if len(s.ghost[client]) > k {
+			d := -1
+			if sym == "own1-long" {
+				d = 8
+			}
+			return strings.Split(s.ghost[client][k].prefix, "/")[0] + fmt.Sprintf("/%d", s.pool.Page+d), true
+		}
+		return "", false
 	case "other1":
 		if len(s.ghost[other]) > 0 {
 			return s.ghost[other][0].prefix, true
@@ -279,6 +295,15 @@ func (s *Sys) Ops() []Op {
 			ops = append(ops, Op{Client: c, Msg: 5, Timers: "t1>t2", IAPDs: [][]string{{"own1"}}})
 			ops = append(ops, Op{Client: c, Msg: 5, Timers: "max", IAPDs: [][]string{{"own1"}}})
 		}
+		// other message types a client sends about prefixes it holds: Rebind, Release
+		for _, h := range []string{"own1", "own1-short", "own2-short", "own1-long"} {
+			if _, ok := s.resolve(c, h); ok {
+				ops = append(ops, Op{Client: c, Msg: 8, IAPDs: [][]string{{h}}})
+				if h != "own1" {
+					ops = append(ops, Op{Client: c, Msg: 6, IAPDs: [][]string{{h}}})
+				}
+			}
+		}
 		ops = append(ops, Op{Client: c, Msg: 1, IAPDs: [][]string{}})       // no IA_PD at all
 		ops = append(ops, Op{Client: c, Msg: 1, IAPDs: [][]string{{}, {}}}) // two IA_PDs
 		ops = append(ops, Op{Client: c, Msg: 1, IAPDs: [][]string{{"free1"}, {"len-page"}, {}}})
@@ -294,6 +319,9 @@ func (s *Sys) Ops() []Op {
 	ops = append(ops, Op{Client: "A", Msg: 1, NoCID: true, IAPDs: [][]string{{}}})
 	if len(s.aged) < len(s.ghost) {
 		ops = append(ops, Op{Client: "-", Age: true, IAPDs: [][]string{}})
+	}
+	if len(s.agedLong) < len(s.ghost) {
+		ops = append(ops, Op{Client: "-", Age: true, Long: true, IAPDs: [][]string{}})
 	}
 	// resolve now, so ops are concrete and deterministic
 	for i := range ops {
@@ -313,7 +341,7 @@ func (s *Sys) Ops() []Op {
 }
 
 func (s *Sys) concretize(o Op) Op {
-	n := Op{Client: o.Client, Msg: o.Msg, Relay: o.Relay, NoCID: o.NoCID, Age: o.Age, Timers: o.Timers, IAPDs: [][]string{}}
+	n := Op{Client: o.Client, Msg: o.Msg, Relay: o.Relay, NoCID: o.NoCID, Age: o.Age, Long: o.Long, Timers: o.Timers, IAPDs: [][]string{}}
 	for _, hs := range o.IAPDs {
 		c := []string{}
 		for _, h := range hs {
@@ -348,7 +376,12 @@ func (s *Sys) Key() string {
 		ag = append(ag, c)
 	}
 	sort.Strings(ag)
-	return fmt.Sprintf("leases=%v bits=%v ghost=%v expired=%v", d.Leases, d.Bits, g, ag)
+	var al []string
+	for c := range s.agedLong {
+		al = append(al, c)
+	}
+	sort.Strings(al)
+	return fmt.Sprintf("leases=%v bits=%v ghost=%v expired=%v long-expired=%v", d.Leases, d.Bits, g, ag, al)
 }
 
 func buildReq(o Op) []byte {
@@ -455,10 +488,16 @@ func (s *Sys) Apply(op Op, live bool) (obs string) {
 	}
 	s.hist = append(s.hist, op)
 	if op.Age {
-		const d = time.Hour + 2*time.Minute
+		d := time.Hour + 2*time.Minute
+		if op.Long {
+			d = 49 * time.Hour
+		}
 		s.hd.VerifAge(d)
 		for c, ts := range s.ghost {
 			s.aged[c] = true
+			if op.Long {
+				s.agedLong[c] = true
+			}
 			for i := range ts {
 				ts[i].before = ts[i].before.Add(-d)
 			}
@@ -511,6 +550,7 @@ func (s *Sys) Apply(op Op, live bool) (obs string) {
 		if live {
 			s.violate("C08", "lock-left-held", "handler returned with its mutex held")
 			s.violate("C09", "lock-left-held", "handler returned with its mutex held: no later renewal can be answered")
+			s.violate("C01", "history/prefix/lock-left-held", "the prefix handler returned with its mutex held: every later IA_PD datagram blocks forever")
 			s.r.Eval("lock-left-held")
 		}
 		return "LOCK-LEFT-HELD"
@@ -529,6 +569,7 @@ func (s *Sys) Apply(op Op, live bool) (obs string) {
 			// requests must be answered); C01 reports it as a crash in its own check.
 			s.violate("C09", "panic-on-repeat", fmt.Sprintf("handler panicked (%s) on message %s", pan, hex.EncodeToString(wire)))
 			s.violate("C08", "panic", fmt.Sprintf("handler panicked (%s)", pan))
+			s.violate("C01", "history/prefix/panic", fmt.Sprintf("the prefix handler panicked (%s) on message %s: in the server this kills the process", pan, hex.EncodeToString(wire)))
 		}
 		class += "/panic"
 		return "PANIC " + pan
@@ -558,7 +599,11 @@ func (s *Sys) Apply(op Op, live bool) (obs string) {
 	for _, t := range s.ghost[op.Client] {
 		holdBefore[t.prefix] = true
 	}
-	if live {
+	// A Release may legitimately be answered without re-delegating anything (and a server that
+	// implements it gives the block back): for it only the safety clauses stay in force, and
+	// what the reply does not delegate again is no longer counted as held by the client.
+	isRelease := op.Msg == 8
+	if live && !isRelease {
 		var wantIDs, gotIDs []int
 		for i := range op.IAPDs {
 			wantIDs = append(wantIDs, int(iaidOf(i)))
@@ -573,6 +618,7 @@ func (s *Sys) Apply(op Op, live bool) (obs string) {
 		}
 	}
 	delete(s.aged, op.Client)
+	delete(s.agedLong, op.Client)
 	var obsParts []string
 	allRepeat := true // message consists only of hint-less / exactly-held IA_PDs
 	for _, hs := range op.IAPDs {
@@ -595,7 +641,7 @@ func (s *Sys) Apply(op Op, live bool) (obs string) {
 			heldSoFar[p] = true
 		}
 		idx := iaidIndex(pd.iaid)
-		if live && len(pd.prefixes) == 0 && pd.status != 6 {
+		if live && !isRelease && len(pd.prefixes) == 0 && pd.status != 6 {
 			s.violate("C08", "empty-iapd", fmt.Sprintf("IA_PD %x answered with neither a prefix nor NoPrefixAvail (status %d)", pd.iaid, pd.status))
 		}
 		var got []string
@@ -639,7 +685,7 @@ func (s *Sys) Apply(op Op, live bool) (obs string) {
 		obsParts = append(obsParts, fmt.Sprintf("%x:%v/st=%d", pd.iaid, got, pd.status))
 		prevGot = got
 		// ---- C09: keep your prefix
-		if idx >= 0 && idx < len(op.IAPDs) && live && len(holdBefore) > 0 {
+		if idx >= 0 && idx < len(op.IAPDs) && live && !isRelease && len(holdBefore) > 0 {
 			hs := op.IAPDs[idx]
 			hintless := len(hs) == 0
 			for _, h := range hs {
@@ -674,7 +720,7 @@ func (s *Sys) Apply(op Op, live bool) (obs string) {
 			}
 		}
 	}
-	if live && len(holdBefore) > 0 {
+	if live && !isRelease && len(holdBefore) > 0 {
 		// a repeat IA_PD (exact held hint, or no hint) that the reply does not answer at all
 		// is "not answered with P again"
 		answered := map[int]bool{}
@@ -694,9 +740,43 @@ func (s *Sys) Apply(op Op, live bool) (obs string) {
 			}
 		}
 	}
+	if isRelease {
+		again := map[string]bool{}
+		for _, pd := range pds {
+			for _, rp := range pd.prefixes {
+				again[rp.ip.String()] = true
+			}
+		}
+		// ... and only what the server itself no longer records for the client (hook dump;
+		// this can only weaken later oracles, it never produces a verdict)
+		for _, l := range s.hd.VerifDump().Leases {
+			if strings.HasPrefix(l, hex.EncodeToString(duidOf(op.Client))+"=") {
+				for _, p := range strings.Split(strings.SplitN(l, "=", 2)[1], ",") {
+					if ip := net.ParseIP(strings.Split(p, "/")[0]); ip != nil {
+						again[ip.String()] = true
+					}
+				}
+			}
+		}
+		for _, hs := range op.IAPDs {
+			for _, h := range hs {
+				addr := net.ParseIP(strings.Split(h, "/")[0])
+				if addr == nil || again[addr.String()] {
+					continue
+				}
+				kept := s.ghost[op.Client][:0]
+				for _, t := range s.ghost[op.Client] {
+					if !net.ParseIP(strings.Split(t.prefix, "/")[0]).Equal(addr) {
+						kept = append(kept, t)
+					}
+				}
+				s.ghost[op.Client] = kept
+			}
+		}
+	}
 	if live {
 		bitsAfter := len(s.hd.VerifDump().Bits)
-		if len(holdBefore) > 0 && allRepeat && len(op.IAPDs) > 0 && bitsAfter != bitsBefore {
+		if len(holdBefore) > 0 && allRepeat && !isRelease && len(op.IAPDs) > 0 && bitsAfter != bitsBefore {
 			s.violate("C09", "repeat-consumes-blocks", fmt.Sprintf("a repeat/renewal from client %s changed the number of allocated blocks %d -> %d", op.Client, bitsBefore, bitsAfter))
 		}
 		// every prefix delegated in this reply must be remembered for the client
@@ -801,6 +881,9 @@ func manyLeases(r *ev.Run, id string) {
 
 var runSched = c16.SchedPart("C08", 6)
 
+// Replay re-runs a stored history for the property named id.
+func Replay(r *ev.Run, id string, raw json.RawMessage) { replayCase(r, id, raw) }
+
 func replayCase(r *ev.Run, id string, raw json.RawMessage) {
 	var sc struct {
 		Scenario string `json:"scenario"`
@@ -820,5 +903,21 @@ func replayCase(r *ev.Run, id string, raw json.RawMessage) {
 		obs := s.Apply(op, true)
 		b, _ := json.Marshal(op)
 		fmt.Printf("  step %d: %s\n     -> %s\n     state %s\n", i, b, obs, s.Key())
+	}
+}
+
+// Crash explores the same graphs for property id (C01): only crashes (panic, mutex left held,
+// non-termination through the operation watchdog) are verdicts; the search is cut at budget.
+func Crash(r *ev.Run, id string, budget time.Duration) {
+	dl := time.Now().Add(budget)
+	for _, p := range pools(false) {
+		p := p
+		res := explore.Explore(r, explore.Config[Op]{
+			Name:      fmt.Sprintf("prefix %s->/%d", p.CIDR, p.Page),
+			New:       func() explore.Sys[Op] { return NewSys(r, id, p, 2, false) },
+			MaxStates: 200000,
+			Deadline:  dl,
+		})
+		r.Sample("history-graph", map[string]interface{}{"plugin": "prefix", "pool": p, "clients": 2, "states": res.States, "transitions": res.Transitions, "depth": res.Depth, "fixpoint": res.Fixpoint})
 	}
 }
